@@ -1,5 +1,4 @@
 INIT Init
 NEXT Next
-INVARIANT Consistent
-INVARIANT StdAgrees
+INVARIANT Agrees
 CHECK_DEADLOCK FALSE
